@@ -1262,6 +1262,60 @@ func ruleProvSubject(c *Ctx, r *Rep) {
 				}
 			}
 			r.Check(ok, "yaml|"+fs.field, c.Pos(fs.st.Pos()), "decoded from <yaml>."+fs.field+" only", strings.Join(o, ","))
+			// a unique identifier is carried whole: the helper that wraps the bytes says 8 bits per byte, it does not trim
+			// (trailing zero bits belong to a named-bit list, not to an identifier)
+			{
+				v := fs.val()
+				if ex, isEx := v.(*ssa.Extract); isEx {
+					v = ex.Tuple
+				}
+				if call, isCall := v.(*ssa.Call); isCall {
+					var scan func(h *ssa.Function, depth int) (found, whole bool)
+					scan = func(h *ssa.Function, depth int) (bool, bool) {
+						if h == nil || !c.InModule(h) || h.Blocks == nil || depth > 2 {
+							return false, false
+						}
+						found, whole := false, true
+						for _, b := range h.Blocks {
+							for _, ins := range b.Instrs {
+								st, ok := ins.(*ssa.Store)
+								if !ok {
+									continue
+								}
+								fa, ok := st.Addr.(*ssa.FieldAddr)
+								if !ok || fieldOfAddr(fa).Name() != "BitLength" || !strings.HasSuffix(ownerName(c, fa.X.Type()), "asn1.BitString") {
+									continue
+								}
+								found = true
+								okLen := false
+								if bin, isBin := st.Val.(*ssa.BinOp); isBin && bin.Op == token.MUL {
+									for _, pair := range [][2]ssa.Value{{bin.X, bin.Y}, {bin.Y, bin.X}} {
+										if _, isLen := lenOperand(pair[0]); isLen {
+											if k, isK := pair[1].(*ssa.Const); isK && k.Value != nil && k.Int64() == 8 {
+												okLen = true
+											}
+										}
+									}
+								}
+								if !okLen {
+									whole = false
+								}
+							}
+						}
+						if !found {
+							for _, ci := range callsIn(h) {
+								if f2, w2 := scan(ci.Common().StaticCallee(), depth+1); f2 {
+									return true, w2
+								}
+							}
+						}
+						return found, whole
+					}
+					if found, whole := scan(call.Call.StaticCallee(), 0); found {
+						r.Check(whole, "yaml|"+fs.field+".BitLength", c.Pos(fs.st.Pos()), "BitLength = len(bytes) * 8 in the helper that wraps the identifier", sprintf("%v", whole))
+					}
+				}
+			}
 		case "IssuerUniqueId.BitLength", "SubjectUniqueId.BitLength":
 			// 8 * len(b) of the same bytes
 			ok := false
@@ -1475,6 +1529,100 @@ func ruleProvManip(c *Ctx, r *Rep) {
 	for f := range wantTbs {
 		if !seenT[f] {
 			r.Bad("tbs-manipulation|"+f, c.FnPos(body), "manipulation applied to TBS field "+f, "never stored")
+		}
+	}
+	// (2b) between the manipulations and the encoding of the body nothing writes a manipulable field again: the signing
+	// function calls no function of the module that stores into one (a key setter called "if the key is still missing"
+	// would undo a manipulation to an empty key)
+	if sf, _ := c.signFunc(); sf != nil {
+		var writes func(f *ssa.Function, depth int, seen map[*ssa.Function]bool) string
+		writes = func(f *ssa.Function, depth int, seen map[*ssa.Function]bool) string {
+			if f == nil || seen[f] || depth > 2 || !c.InModule(f) || f.Blocks == nil {
+				return ""
+			}
+			seen[f] = true
+			for _, fs := range storesIntoType(c, f, "cert.TbsCertificate") {
+				if fs.whole {
+					continue
+				}
+				for field := range wantTbs {
+					if fs.field == field || strings.HasPrefix(fs.field, field+".") || strings.HasPrefix(field, fs.field+".") {
+						return c.FuncKey(f) + " stores into " + fs.field
+					}
+				}
+			}
+			for _, ci := range callsIn(f) {
+				if w := writes(ci.Common().StaticCallee(), depth+1, seen); w != "" {
+					return w
+				}
+			}
+			return ""
+		}
+		n := 0
+		for _, ci := range callsIn(sf) {
+			g := ci.Common().StaticCallee()
+			if g == nil || !c.InModule(g) || g == sf {
+				continue
+			}
+			n++
+			w := writes(g, 0, map[*ssa.Function]bool{})
+			r.Check(w == "", sprintf("sign-calls-no-tbs-writer|%s#%d", c.FuncKey(sf), n), c.Pos(ci.Pos()), "the signing function calls nothing that stores into a field a manipulation may have set", w)
+		}
+		// the same in the body builder: once the manipulations are applied (in place, or by a helper), the builder
+		// neither stores another value into such a field nor calls a function that does (the key is installed first)
+		var sites []ssa.Instruction
+		helpers := map[*ssa.Function]bool{}
+		manipStore := func(f *ssa.Function) []ssa.Instruction {
+			var out []ssa.Instruction
+			for _, fs := range storesIntoType(c, f, "cert.TbsCertificate") {
+				if _, ok := wantTbs[fs.field]; !ok || fs.whole {
+					continue
+				}
+				v := fs.val()
+				if strings.Contains(strings.Join(pv.Origins(v), ","), "Manipulations") || strings.Contains(strings.Join(pv.Origins(v), ","), "config.Manipulations") {
+					out = append(out, fs.st)
+				}
+			}
+			return out
+		}
+		sites = append(sites, manipStore(body)...)
+		for _, ci := range callsIn(body) {
+			g := ci.Common().StaticCallee()
+			if g == nil || !c.InModule(g) || g.Blocks == nil {
+				continue
+			}
+			takesManip := false
+			for _, prm := range g.Params {
+				if strings.HasSuffix(typeShort(c, prm.Type()), "config.Manipulations") || strings.HasSuffix(typeShort(c, prm.Type()), "config.CertificateContent") {
+					takesManip = true
+				}
+			}
+			if !takesManip {
+				continue
+			}
+			for _, fs := range storesIntoType(c, g, "cert.TbsCertificate") {
+				if _, ok := wantTbs[fs.field]; ok && !fs.whole {
+					if o := strings.Join(pv.Origins(fs.val()), ","); strings.Contains(o, "P("+c.FuncKey(g)+".") {
+						helpers[g] = true
+						sites = append(sites, ci)
+					}
+				}
+			}
+		}
+		k := 0
+		reported := map[ssa.Instruction]bool{}
+		for _, site := range sites {
+			for _, ci := range callsIn(body) {
+				g := ci.Common().StaticCallee()
+				if g == nil || !c.InModule(g) || helpers[g] || ssa.Instruction(ci) == site || reported[ci] || !reachableFromInstr(site, ci) {
+					continue
+				}
+				reported[ci] = true
+				if w := writes(g, 0, map[*ssa.Function]bool{}); w != "" {
+					k++
+					r.Bad(sprintf("manipulation-survives|call#%d", k), c.Pos(ci.Pos()), "after the manipulations are applied the body builder calls nothing that stores into a manipulable field", w)
+				}
+			}
 		}
 	}
 	// (3) outer manipulations after signing
